@@ -186,7 +186,7 @@ func c05Cases(level int) []SCase {
 							// the same number as an optional property with a default (a valid value chosen by the reference model): the field
 							// then is not a pointer, and an absent or null value still must not be bound-checked (its zero value may violate the bounds)
 							if lm, err := refmodel.New(map[string]string{"s.json": space.Text(l)}, "s.json"); err == nil {
-								if ds := lm.Docs(1); len(ds) > 0 && lm.Valid(ds[0].V) == refmodel.Accept {
+								if ds := lm.Docs(1); len(ds) > 0 && lm.Valid(ds[0].V) == refmodel.Accept && asBuiltAccepts(lm, ds[0].V, c05Devs) {
 									ld := space.Clone(l)
 									ld["default"] = ds[0].V
 									out = append(out, SCase{ID: "C05/default/" + name, Cfg: baseCfg(), Axes: map[string]string{"pos": "default", "leaf": name},
@@ -266,4 +266,15 @@ func c05Cases(level int) []SCase {
 			Schema: J{"type": "object", "properties": J{"d": J{"$ref": "#/$defs/D"}}, "required": A{"d"}, "$defs": J{"D": l}}})
 	}
 	return out
+}
+
+// asBuiltAccepts: the value is also accepted under the listed deviations (a default that one of the known defects rejects - 0.3 for
+// multipleOf 0.1 - would bring that finding into the default position through the back door).
+func asBuiltAccepts(m *refmodel.Model, v any, devs []string) bool {
+	m.Dev = map[string]bool{}
+	for _, d := range devs {
+		m.Dev[d] = true
+	}
+	defer func() { m.Dev = map[string]bool{} }()
+	return m.Valid(v) == refmodel.Accept
 }
